@@ -443,6 +443,9 @@ func (s *Scope) evalCall(e ECall) Term {
 				return IntLit(at.Len())
 			}
 			unsupported("len of %s in contract", a.Sort)
+		case "rune":
+			v := s.Eval(e.Args[0])
+			return T("(- (mod (+ "+v.S+" 2147483648) 4294967296) 2147483648)", SInt)
 		case "int", "int64", "int32", "mathint":
 			a := s.Eval(e.Args[0])
 			if a.Sort == SReal {
@@ -507,6 +510,13 @@ func (s *Scope) evalCall(e ECall) Term {
 		case "gdiv":
 			as := args()
 			return T("(gdiv "+as[0].S+" "+as[1].S+")", SInt)
+		case "utf8enc": // UTF-8 encoding of a scalar value (the function string(rune) computes)
+			v := s.Eval(e.Args[0])
+			so := w.SeqSort(SInt)
+			w.DeclareFun("utf8enc", []Sort{SInt}, so)
+			r := T("(utf8enc "+v.S+")", so)
+			r.GoT = types.Typ[types.String]
+			return r
 		case "zeros": // zeros(n): sequence of n zero bytes
 			n := s.Eval(e.Args[0])
 			so := w.SeqSort(SInt)
